@@ -215,7 +215,8 @@ func (p *Parser) Exec(c *Call, cl *simrt.Client) *CallResult {
 	ctx := kernel.NewCtx(&plan)
 	start := cl.Steps
 	simrt.Yield(simrt.YEntry)
-	val, err, esc, cnt := p.Parse(c.Opts.FileName(), c.Input, &c.Opts, ctx)
+	// the input belongs to this execution: a block may write to it
+	val, err, esc, cnt := p.Parse(c.Opts.FileName(), append([]byte(nil), c.Input...), &c.Opts, ctx)
 	simrt.Yield(simrt.YExit)
 	r := &CallResult{ctx: ctx, ExprCnt: cnt, Steps: cl.Steps - start, Aborted: cl.Aborted, Overflow: ctx.Overflow, Backward: ctx.Backward, Nested: ctx.NestedRuns, StatsDigest: ctx.StatsDigest, OptsModified: ctx.OptsModified}
 	if gs := ctx.GlobalStoreSeen(); gs != nil && !cl.Aborted && !ctx.Overflow && len(ctx.Events) > 0 {
